@@ -474,3 +474,64 @@ func describeLayout(l graph.Layout) string {
 	}
 	return sb.String()
 }
+
+// goTest renders a plain unit test (public API only, no explorer) that replays one (input, configuration) case:
+// it fails when Layout panics and otherwise prints the layout next to the oracle's statement.
+func goTest(prop string, in Input, c Cfg, detail string) string {
+	var sb strings.Builder
+	k := math.Ldexp(1, c.Scale)
+	fmt.Fprintf(&sb, "// paste into a _test.go file of package autog_test (imports: testing, github.com/nulab/autog, github.com/nulab/autog/graph)\n")
+	fmt.Fprintf(&sb, "func TestReplay%s(t *testing.T) {\n\tedges := [][]string{", prop)
+	for _, e := range in.Edges() {
+		fmt.Fprintf(&sb, "{%q, %q}, ", e[0], e[1])
+	}
+	fmt.Fprintf(&sb, "}\n\topts := []autog.Option{\n")
+	if c.P1 == 1 {
+		fmt.Fprintf(&sb, "\t\tautog.WithCycleBreaking(autog.CycleBreakingDepthFirst),\n")
+	} else {
+		fmt.Fprintf(&sb, "\t\tautog.WithCycleBreaking(autog.CycleBreakingGreedy),\n")
+		if c.P1 == 2 {
+			fmt.Fprintf(&sb, "\t\tautog.WithNonDeterministicGreedyCycleBreaker(), // the failing run answered the random picks with %v (hook H1)\n", c.Picks)
+		}
+	}
+	fmt.Fprintf(&sb, "\t\tautog.WithLayering(autog.%s),\n", []string{"LayeringNetworkSimplex", "LayeringLongestPath"}[c.P2])
+	if c.P3 == 1 {
+		fmt.Fprintf(&sb, "\t\tautog.WithOrdering(autog.OrderingNoop),\n")
+	}
+	pos := []string{"PositioningSinkColoring", "PositioningVAlign", "PositioningPackRight", "PositioningNetworkSimplex", "PositioningBrandesKoepf"}
+	if c.P4 <= 4 {
+		fmt.Fprintf(&sb, "\t\tautog.WithPositioning(autog.%s),\n", pos[c.P4])
+	} else {
+		fmt.Fprintf(&sb, "\t\tautog.WithPositioning(autog.PositioningBrandesKoepf), autog.WithBrandesKoepfLayout(%d),\n", c.P4-5)
+	}
+	fmt.Fprintf(&sb, "\t\tautog.WithEdgeRouting(autog.%s),\n", []string{"EdgeRoutingNoop", "EdgeRoutingStraight", "EdgeRoutingPolyline", "EdgeRoutingOrtho", "EdgeRoutingSplines"}[c.P5])
+	if c.SZ == 1 || c.SZ == 4 {
+		fmt.Fprintf(&sb, "\t\tautog.WithNodeFixedSize(%g, %g),\n", fixW*k, fixH*k)
+	}
+	if c.SZ >= 2 {
+		_, sizes := c.options(in)
+		fmt.Fprintf(&sb, "\t\tautog.WithNodeSize(map[string]graph.Size{")
+		for i, n := 0, in.N(); i < n; i++ {
+			if sz, ok := sizes[in.Name(i)]; ok {
+				fmt.Fprintf(&sb, "%q: {W: %g, H: %g}, ", in.Name(i), sz.W, sz.H)
+			}
+		}
+		fmt.Fprintf(&sb, "}),\n")
+	}
+	fmt.Fprintf(&sb, "\t\tautog.WithNodeSpacing(%g), autog.WithLayerSpacing(%g),\n", c.NS*k, c.LS*k)
+	if c.TH >= 0 {
+		fmt.Fprintf(&sb, "\t\tautog.WithNetworkSimplexThoroughness(%d),\n", c.TH)
+	}
+	if c.Virt {
+		fmt.Fprintf(&sb, "\t\tautog.WithOutputVirtualNodes(true),\n")
+	}
+	fmt.Fprintf(&sb, "\t}\n\tl := autog.Layout(graph.EdgeSlice(edges), opts...) // a panic here fails the test\n")
+	fmt.Fprintf(&sb, "\tfor _, n := range l.Nodes {\n\t\tt.Logf(\"node %%q x=%%g y=%%g w=%%g h=%%g\", n.ID, n.X, n.Y, n.W, n.H)\n\t}\n")
+	fmt.Fprintf(&sb, "\tfor _, e := range l.Edges {\n\t\tt.Logf(\"edge %%q->%%q arrowStart=%%v points=%%v\", e.FromID, e.ToID, e.ArrowHeadStart, e.Points)\n\t}\n")
+	first := detail
+	if i := strings.IndexByte(first, '\n'); i > 0 {
+		first = first[:i]
+	}
+	fmt.Fprintf(&sb, "\tt.Errorf(%q)\n}\n", "the "+prop+" oracle said about this layout: "+first)
+	return sb.String()
+}
